@@ -42,7 +42,8 @@ EXTENDS Divisor, SequencesExt
 
 CONSTANTS Fams,      \* subset of {"pair", "each", "rand", "long"}
           NRand,     \* seeded sets per (P, L) of family rand
-          LongLens   \* trace lengths of family long
+          LongLens,  \* trace lengths of family long
+          AllAux     \* TRUE: every (main shape, auxiliary shape) pair of family pair; FALSE: half of them
 
 VARIABLE case
 vars == <<case>>
@@ -119,7 +120,7 @@ PairCases ==
       IJ == (1..n) \X (1..n)
   IN {PC(p[1], p[2], "same") : p \in {q \in IJ : q[1] < q[2] /\ ok(q[1], q[2])}}
      \cup {PC(p[1], p[2], "cols") : p \in {q \in IJ : q[1] <= q[2]}}
-     \cup {PC(p[1], p[2], "aux") : p \in IJ}
+     \cup {PC(p[1], p[2], "aux") : p \in {q \in IJ : AllAux \/ (q[1] + q[2]) % 2 = 0}}
 EachCases ==
   {[fam |-> "each", P |-> p, L |-> 16, i |-> i] : p \in {97, 257}, i \in 1..Len(ShapeSeq(16))}
 RandCases ==
@@ -233,8 +234,10 @@ Perms(n, st) ==
 
 \* distinct non-zero elements of E
 CCs(P, d, n, st) ==
+  \* first coordinates 1 + (r + 31 i mod P-1): distinct for i < P - 1 because gcd(31, P - 1) = 1
+  LET r == Rnd(st, 300) % (P - 1) IN
   Mat([i \in 1..n |-> LET e == RElem(P, d, st, 300 + i)
-                      IN [t \in 1..d |-> IF t = 1 THEN 1 + ((e[1] + 31 * i) % (P - 1)) ELSE e[t]]], n)
+                      IN [t \in 1..d |-> IF t = 1 THEN 1 + ((r + 31 * i) % (P - 1)) ELSE e[t]]], n)
 Distinct(s) == \A i \in 1..Len(s) : \A j \in (i + 1)..Len(s) : s[i] # s[j]
 
 Scenario(c) ==
